@@ -183,7 +183,7 @@ func checkC04(c *Ctx) {
 	c.notDecided = "exactly-once delivery and absence of false equivocation under every interleaving (parking of early acknowledgements, several senders/rounds in flight)"
 	const T1, T2, G1, V1 = "C04.T1", "C04.T2", "C04.G1", "C04.V1"
 	c.Rule(T1, "broadcast-class message types of one phase have distinct rounds ≤127", 4+16)
-	c.Rule(T2, "sender-side class constant = receiver-side ClassifyMsg class, per send site", 6)
+	c.Rule(T2, "sender-side class constant = receiver-side ClassifyMsg class, per send site", 3)
 	c.Rule(G1, "acks about own messages are dropped before registration", 1)
 	c.Rule(V1, "point-to-point pass-through", 1)
 	for _, b := range builtinBackends {
@@ -275,23 +275,14 @@ func checkC04(c *Ctx) {
 		return
 	}
 	n := 0
-	for _, in := range instrsDeep(r.receive) {
-		ci, ok := in.(ssa.CallInstruction)
-		if !ok || isHelperCall(in) != nil {
-			continue // a transparent helper's body is part of this listing
-		}
-		cal := staticCallee(ci.Common())
-		if cal == nil || !r.reachesSink(cal, map[*ssa.Function]bool{}) {
-			continue
-		}
+	for _, in := range r.registrationSites() {
 		facts := FactsAt(in)
 		// ack path = len(Ack digest) > 0
-		isAck := hasFact(facts, func(f Fact) bool {
-			x, isLen := lenOperand(strip(f.X))
-			return f.Op == token.GTR && isLen && r.isAckDigest(x) && isZero(f.Y)
-		})
-		if !isAck {
+		if !hasFact(facts, r.ackPathFact) {
 			continue
+		}
+		if mu, isMU := in.(*ssa.MapUpdate); isMU && r.isSelfID(mu.Key) {
+			continue // the own voucher (direct receipt), not an acknowledgement
 		}
 		n++
 		ok2 := hasFact(facts, func(f Fact) bool {
@@ -371,7 +362,7 @@ func checkC04(c *Ctx) {
 // leaves the other receivers one voucher short for ever in a fault-free run.
 func ruleC04Callbacks(c *Ctx) {
 	const O3 = "C04.O3"
-	c.Rule(O3, "acknowledgement and hand-over callbacks of every RBC instance are unconditional; a received payload is always acknowledged", 5)
+	c.Rule(O3, "acknowledgement and hand-over callbacks of every RBC instance are unconditional; a received payload is always acknowledged", 2)
 	t := buildThresholdModel(c)
 	if t == nil {
 		return
@@ -434,21 +425,11 @@ func ruleC04Callbacks(c *Ctx) {
 		return
 	}
 	nP := 0
-	for _, in := range instrsDeep(r.receive) {
-		ci, ok := in.(ssa.CallInstruction)
-		if !ok || isHelperCall(in) != nil {
-			continue
+	for _, in := range r.registrationSites() {
+		if ci, isCall := in.(ssa.CallInstruction); isCall && callsFuncField(ci.Common(), r.fFwd) {
+			continue // the point-to-point pass-through
 		}
-		cal := staticCallee(ci.Common())
-		if cal == nil || !r.reachesSink(cal, map[*ssa.Function]bool{}) {
-			continue
-		}
-		facts := FactsAt(in)
-		isAck := hasFact(facts, func(f Fact) bool {
-			x, isLen := lenOperand(strip(f.X))
-			return f.Op == token.GTR && isLen && r.isAckDigest(x) && isZero(f.Y)
-		})
-		if isAck {
+		if hasFact(FactsAt(in), r.ackPathFact) {
 			continue
 		}
 		nP++
@@ -479,7 +460,7 @@ func ruleC04Callbacks(c *Ctx) {
 // what else is in flight (other rounds, other senders, arrival order), which is what C04 excludes.
 func ruleC04Drops(c *Ctx, r *rbcModel) {
 	const O2 = "C04.O2"
-	c.Rule(O2, "no unregistered exit from Receive/registerMsg other than the enumerated drop reasons", 2)
+	c.Rule(O2, "no unregistered exit from Receive/registerMsg other than the enumerated drop reasons", 1)
 	m := r.m
 	sl := NewSlicer(m, PkgRBC)
 	// mutable receiver state: fields of Receiver stored to by package code (directly or as a map)
